@@ -142,6 +142,10 @@ pub struct CountScenario {
     pub site: String,
     /// C06 profile: zero the (public) counter before every installation
     pub zero_counter: bool,
+    /// every lifetime runs inside a destructor while another panic unwinds the thread (a fixture
+    /// that sets up its fakes in `Drop`): verification must then stay silent, everything else holds
+    #[serde(default)]
+    pub in_unwind: bool,
     pub lifetimes: Vec<CLifetime>,
     pub classes: Vec<String>,
 }
@@ -202,6 +206,10 @@ pub fn generate(profile: &str, seed: u64, index: u64) -> CountScenario {
         }
         lifetimes.push(CLifetime { n, calls, exit_panic, second, prelude, refused_after });
     }
+    let in_unwind = rng.chance(1, 6);
+    if in_unwind {
+        classes.push("whole-scenario-while-unwinding".into());
+    }
     classes.sort();
     classes.dedup();
     CountScenario {
@@ -213,6 +221,7 @@ pub fn generate(profile: &str, seed: u64, index: u64) -> CountScenario {
         index,
         site,
         zero_counter: profile == "C06",
+        in_unwind,
         lifetimes,
         classes,
     }
@@ -256,6 +265,17 @@ pub fn execute(sc: &CountScenario, sh: &Shared) -> Value {
     let mut exit_not_judged = 0u64;
     let mut preludes = 0u64;
     let mut refusals = 0u64;
+    struct InDrop<F: FnMut()>(Option<F>);
+    impl<F: FnMut()> Drop for InDrop<F> {
+        fn drop(&mut self) {
+            if let Some(mut f) = self.0.take() {
+                f()
+            }
+        }
+    }
+    struct Outer;
+    {
+    let mut all = || {
     for (li, lt) in sc.lifetimes.iter().enumerate() {
         sh.note(PH_OTHER, li as u64, 0, 0);
         let nstat = match sc.site.as_str() {
@@ -450,7 +470,7 @@ pub fn execute(sc: &CountScenario, sh: &Shared) -> Value {
                 mixd(10);
                 if !exit_judged {
                     exit_not_judged += 1;
-                } else if expect_panic {
+                } else if expect_panic && !sc.in_unwind {
                     v("count-mismatch-not-reported-at-scope-exit", count_prop, format!("{what}: no panic"));
                 }
             }
@@ -459,6 +479,10 @@ pub fn execute(sc: &CountScenario, sh: &Shared) -> Value {
                 if panics_here > 1 {
                     v("second-panic-while-unwinding", &["C06", "C05"], format!("{what}: {panics_here} panics were raised"));
                 }
+            }
+            Err(p) if sc.in_unwind => {
+                mixd(13);
+                v("second-panic-while-unwinding", &["C06", "C05"], format!("{what}: the thread was already unwinding (the lifetime runs inside a destructor) and scope exit raised another panic: {}", panic_msg(&p)));
             }
             Err(p) => {
                 let msg = panic_msg(&p);
@@ -485,6 +509,21 @@ pub fn execute(sc: &CountScenario, sh: &Shared) -> Value {
         if !viol.borrow().is_empty() {
             break;
         }
+    }
+    };
+    if sc.in_unwind {
+        let r = catch_unwind(AssertUnwindSafe(|| {
+            let _g = InDrop(Some(&mut all));
+            std::panic::panic_any(Outer);
+        }));
+        if let Err(p) = r {
+            if !p.is::<Outer>() {
+                v("second-panic-while-unwinding", &["C06", "C05"], format!("a panic escaped the fixture's destructor: {}", panic_msg(&p)));
+            }
+        }
+    } else {
+        all();
+    }
     }
     sh.note(PH_DONE, 0, 0, 0);
     let mut faults = serde_json::Map::new();
